@@ -285,11 +285,11 @@ def confirm(ctx, cases, recs, bad, prefixes, rerun):
     # above and counted in the evidence, and the check goes on.
 
 
-def apalache_order(ctx, n, cap, init, inv, length, expect, timeout=1500):
+def apalache_order(ctx, n, cap, init, inv, length, expect, timeout=3000):
     """One Apalache run over spec/PbfOrderInd.tla (EXTENDS PbfOrderCore) with N = n, Cap = cap (constants from a generated .cfg).
     expect = "NoError" (obligation discharged) or "Error" (a canary that must be refuted).  Anything else is exit 2."""
     import shutil, time
-    wd = os.path.join(ctx.scratch, "apa-%d-%d-%s" % (n, cap, inv))
+    wd = os.path.join(ctx.scratch, "apa-%d-%d-%s-%s-%d" % (n, cap, init, inv, length))
     os.makedirs(os.path.join(wd, "tmp"), exist_ok=True)
     for f in ("PbfOrderCore.tla", "PbfOrderInd.tla"):
         shutil.copy(os.path.join(vlib.SPEC, f), wd)
@@ -299,13 +299,16 @@ def apalache_order(ctx, n, cap, init, inv, length, expect, timeout=1500):
     env.update(JVM_ARGS="-Xmx3g", TMPDIR=os.path.join(wd, "tmp"))
     cmd = ["apalache-mc", "check", "--config=run.cfg", "--length=%d" % length, "--out-dir=" + os.path.join(wd, "out"), "PbfOrderInd.tla"]
     t0 = time.time()
+    import signal
+    pr = subprocess.Popen(cmd, cwd=wd, env=env, stdout=subprocess.PIPE, stderr=subprocess.STDOUT, text=True, start_new_session=True)
     try:
-        r = subprocess.run(cmd, cwd=wd, env=env, capture_output=True, text=True, timeout=timeout)
+        out, _ = pr.communicate(timeout=timeout)
     except subprocess.TimeoutExpired:
+        os.killpg(pr.pid, signal.SIGKILL)   # the launcher script and its JVM
+        pr.communicate()
         raise vlib.Infra("apalache PbfOrderInd N=%d Cap=%d %s/%s timed out after %ss" % (n, cap, init, inv, timeout))
-    out = r.stdout + r.stderr
     m = re.search(r"The outcome is: (\w+)", out)
-    got = m.group(1) if m else "none(rc=%d)" % r.returncode
+    got = m.group(1) if m else "none(rc=%d)" % pr.returncode
     shutil.rmtree(wd, ignore_errors=True)
     if got != expect:
         raise vlib.Infra("apalache PbfOrderInd N=%d Cap=%d --init=%s --inv=%s --length=%d: outcome %s, expected %s\n%s" % (
